@@ -76,7 +76,7 @@ func sameCommands(db *database.Database, cmds []database.Command) string {
 
 func c03Property(t *rapid.T) {
 	rec := stat.For("C03")
-	o := gen.CmdOpts{Unicode: rapid.IntRange(0, 2).Draw(t, "unicode") == 0, Irregular: true}
+	o := gen.CmdOpts{Unicode: rapid.IntRange(0, 2).Draw(t, "unicode") == 0, Irregular: true, Heavy: true, Long: true}
 	cmds, cls := gen.DB(t, o, []int{1, 2, 4, 10, 1})
 	ubiq := ""
 	if rapid.IntRange(0, 3).Draw(t, "ubiquitous") == 0 {
@@ -94,6 +94,10 @@ func c03Property(t *rapid.T) {
 		qcls = append(qcls, "unicode", "unicode")
 	}
 	q, qc := gen.Query(t, cmds, qcls)
+	heavy := gen.HeavyWord(cmds)
+	if heavy != "" && rapid.IntRange(0, 2).Draw(t, "ask-heavy") > 0 {
+		q = rapid.SampledFrom([]string{heavy, heavy + " " + q}).Draw(t, "heavy-query")
+	}
 	if ubiq != "" && rapid.Bool().Draw(t, "ask-ubiquitous") {
 		q = rapid.SampledFrom([]string{ubiq, ubiq + " " + q, q + " " + ubiq}).Draw(t, "ubiquitous-query")
 	}
@@ -225,6 +229,14 @@ func c03Property(t *rapid.T) {
 	if ref.LowersToASCII(q) {
 		labels = append(labels, "lowers-to-ascii-rune")
 	}
+	if heavy != "" {
+		for _, x := range terms {
+			if x == heavy {
+				labels = append(labels, "term-repeated-255+")
+				break
+			}
+		}
+	}
 	if ubiq != "" && len(cmds) >= 25 {
 		for _, x := range terms {
 			if x == ubiq {
@@ -250,6 +262,7 @@ func TestC03_Scan(t *testing.T) {
 	}
 	r.RequireShare("multi-field-hit", 0.20)
 	r.RequireShare("ubiquitous-term-25+", 0.02)
+	r.RequireShare("term-repeated-255+", 0.02)
 	rapid.Check(t, c03Property)
 }
 
